@@ -35,3 +35,9 @@ Inductive stmt :=
 | SIf (c : cond) (th el : list stmt)
 | SContinue
 | SAnyKey (h : haystack) (body : list stmt). (* for sk in KEYS: if sk in <h>: body; break *)
+
+(* ---- round 3: where the function writes and what it returns (Gen/C08_Frame.v) ---- *)
+(* the two dict-valued local variables of mask_dict_password *)
+Inductive hvar := VarOut (* the local initialised before the loop *) | VarArg (* the parameter `dictionary` *).
+(* OUT = {} / dict() -> InitFresh 0 ; OrderedDict() -> InitFresh 1 ; OUT = dictionary -> InitArg *)
+Inductive out_init := InitFresh (kind : N) | InitArg.
